@@ -42,6 +42,12 @@ class TlcResult:
         m = re.search(r"(\d+) states generated, (\d+) distinct states found", out)
         self.generated = int(m.group(1)) if m else 0
         self.distinct = int(m.group(2)) if m else 0
+        if not m:
+            # a run that was cut off by the outer timeout: the last progress line says how far it got
+            pm = re.findall(r"Progress\(\d+\)[^\n]*?: ([\d,]+) states generated[^\n]*?, ([\d,]+) distinct states found", out)
+            if pm:
+                self.generated = int(pm[-1][0].replace(",", ""))
+                self.distinct = int(pm[-1][1].replace(",", ""))
         m = re.search(r"depth of the complete state graph search is (\d+)", out)
         self.depth = int(m.group(1)) if m else 0
         self.violated = re.findall(
